@@ -226,7 +226,12 @@ func searchWatched(expr string, jp *jmespath.JMESPath, doc interface{}) (mon.Obs
 }
 
 func c06Case(r *mon.Run, t *mon.Tally, rl *mon.RaceLog, wl string, idx int, tree *gen.Expr, base interface{}, frozen bool) {
-	expr := gen.Spell(tree)
+	c06CaseExpr(r, t, rl, wl, idx, gen.Spell(tree), base, frozen)
+}
+
+// c06CaseExpr: one watched call of the expression on a fresh document (a JSON value, copied with spare
+// capacity, or a constructor func() interface{}).
+func c06CaseExpr(r *mon.Run, t *mon.Tally, rl *mon.RaceLog, wl string, idx int, expr string, base interface{}, frozen bool) {
 	var doc interface{}
 	docDesc := ""
 	if mk, ok := base.(func() interface{}); ok {
@@ -292,7 +297,7 @@ func clipStr(s string, n int) string {
 
 func c06(r *mon.Run) {
 	r.Rule = "per case a fresh document (every array with spare capacity), one goroutine deep-reading every word of it (elements up to cap, map entries) with no synchronisation to the goroutine that calls Search; under -race any write to the document is a reported data race whether or not it changes a value; plus a canonical snapshot before/after, on value and error returns alike, and the compiled AST's s-expression before/after for literal-fed calls. " +
-		"Workload: every built-in function (every typed argument template) with every parameter fed from the document x 24 nestings (standalone, piped, in multi-selects, twice, inside a projection, inside an expression reference, inside a filter, followed by an error, next to an erroring sibling, and as the left side of every projection kind, of filters that drop elements and of an index …), the same with literals, 27 special compositions (sorts of sorts, failing by-expression sorts, flatten/merge/to_array aliasing), every built-in function on 23 typed operands of Go-struct documents (typed slices, structs, pointers; 1 and 2 arguments); seeded random trees on typed documents; 26 flatten/projection/function shapes on one-element wrappers around lists of 1…4096 elements (exact and spare capacity) and on lists of one-element lists; 130 field / projection / filter / function expressions on Go documents of the embedding family (nil and set embedded pointers behind pointers and typed slices of pointers); the function matrix on documents whose leaves are json.Number / int / pointers / named types. Non-trivial = distinct expressions that reached the interpreter and returned."
+		"Workload: every built-in function (every typed argument template) with every parameter fed from the document x 24 nestings (standalone, piped, in multi-selects, twice, inside a projection, inside an expression reference, inside a filter, followed by an error, next to an erroring sibling, and as the left side of every projection kind, of filters that drop elements and of an index …), the same with literals, 27 special compositions (sorts of sorts, failing by-expression sorts, flatten/merge/to_array aliasing), every built-in function on 23 typed operands of Go-struct documents (typed slices, structs, pointers; 1 and 2 arguments); seeded random trees on typed documents; 26 flatten/projection/function shapes on one-element wrappers around lists of 1…4096 elements (exact and spare capacity) and on lists of one-element lists; 55 projection / function shapes on lists with nulls before, between and after other elements; 130 field / projection / filter / function expressions on Go documents of the embedding family (nil and set embedded pointers behind pointers and typed slices of pointers); the function matrix on documents whose leaves are json.Number / int / pointers / named types. Non-trivial = distinct expressions that reached the interpreter and returned."
 	r.Floor = 300
 	r.Assumptions = []string{"the Go race detector reports conflicting accesses without a happens-before edge regardless of their timing; harness goroutines share nothing but the document",
 		"built with -race; without the race log (VH_RACELOG) only the snapshot monitor is active and the run is reported as inconclusive for the 'no write' clause"}
@@ -516,6 +521,19 @@ func c06(r *mon.Run) {
 			}
 			t.Nontrivial("emb:" + expr + strconv.Itoa(i%len(sroots)))
 		}}
-	r.Exec(fm, sd, rnd, wr, xd, emb)
+	// lists with nulls in them (before, between and after other elements), bare and nested: a projection that
+	// has nothing to project may be tempted to tidy the list it was given
+	nullDoc := func() interface{} { // (a fresh decode per case)
+		return docs.J(`{"x":[3,null,7,null,9],"y":[null,1],"z":[1,null],"n":[null,null],"g":[{"v":[1,null,2]},{"v":[null]},{"v":[]}],"o":{"a":null,"b":1,"c":null,"d":[null,2]},"m":[[null,1],[2,null,3],null,[null]],"s":[null,"b",null,"a"],"ob":[null,{"k":2},null,{"k":1}]}`)
+	}
+	nexprs := []string{"x[*]", "length(x[*])", "x[]", "x[?@]", "x[*] | [0]", "o.*", "g[*].v[*]", "map(&v[*], g)", "x[:]", "x[::-1]", "abs(x[*])", "x[*] | nosuch(@)", "not_null(x[*])", "m[*][*]", "m[][]", "sort(s[*])", "y[*]", "z[*]", "n[*]",
+		"[x[*], x[*]]", "x[*][0]", "m[*]", "m[]", "g[].v[]", "g[*].v[]", "o.d[*]", "to_array(x)[*]", "x[?@ != `null`]", "x[*] == x", "join(',', s[*])", "s[*] | sort(@)", "ob[*].k", "ob[*]", "sort_by(ob[*], &k)", "max_by(ob[?@], &k)", "reverse(x[*])",
+		"x[1:][*]", "(x)[*]", "@.x[*]", "*[*]", "*", "[*]", "values(o)", "keys(o)", "o.* | [0]", "merge(o, o).*", "x[*] || y", "!x[*]", "x[*] && y[*]", "{a: x[*], b: y[*]}", "m[*][?@]", "m[?@][*]", "g[?v].v[*]", "x[?`true`]", "x[-3:][*]"}
+	nlw := mon.Workload{Name: "lists-with-nulls", N: len(nexprs) * 2, Serial: true, Batch: 100,
+		Describe: func(i int) string { return nexprs[i/2] },
+		Do: func(i int, t *mon.Tally) {
+			c06CaseExpr(r, t, rl, "lists-with-nulls", i, nexprs[i/2], func() interface{} { return withSpare(nullDoc()) }, i%2 == 1)
+		}}
+	r.Exec(fm, sd, rnd, wr, xd, emb, nlw)
 	r.Extra["race_log_active"] = rl != nil
 }
